@@ -33,15 +33,17 @@ the server says 250/354/235/220..., not when the harness thinks it should) and a
 After a successful STARTTLS the statement says nothing about what is remembered, so helo_done (and an open
 transaction) become 'unknown' until the next EHLO/HELO/RSET/MAIL resolves them; clauses touching an unknown
 are skipped (C08 owns the STARTTLS boundary).
-Only the first violation of a session is reported (afterwards automaton and implementation may have parted).
+Only the first violation of a session is reported (afterwards automaton and implementation may have parted);
+if that first one is the read-only invariant (vi), the first behavioural violation (i)-(v) after it is reported too.
 
 Exploration: (1) STATE-GRAPH CLOSURE per (extension set, handler kind): BFS over abstract states
 (automaton state x implementation flags x envelope shape); every newly reached state is expanded with every
 symbol by replaying its witness prefix on a fresh server until no new state appears.  The BFS lives in
 gen_cases(): run_case() registers the states each 'bfs' case reached in a module-level table that the
 generator (consumed lazily, case by case, by the same worker) reads to decide what to yield next -- so every
-BFS step is an ordinary replayable case.  (2) all sequences of length <= 2 (quick) / <= 3 on a reduced alphabet
-(thorough) after no prefix, after EHLO and after EHLO MAIL RCPT.  (3) seeded random walks up to 12 units.
+BFS step is an ordinary replayable case.  (2) all sequences of length 2 after no prefix, after EHLO and after EHLO MAIL RCPT; thorough adds
+all sequences of length 3 over a reduced 31-symbol alphabet after the same prefixes and over the full alphabet after EHLO
+for the configurations without STARTTLS.  (3) seeded random walks up to 12 units.
 """
 import re
 import base64
@@ -67,7 +69,7 @@ LEVEL_TEXT = ('Real Server (+ real SmtpSession in half of the configurations) dr
               'socket (or a socketpair with real TLS when STARTTLS is offered). Online spec automaton advanced from '
               'observed replies; exact recv-boundary attribution. Explored: BFS closure of the abstract state graph '
               '(automaton state x implementation flags x envelope shape) per (extension set, handler kind) with every '
-              'alphabet symbol tried from every abstract state; all symbol sequences up to the depth bound after '
+              'alphabet symbol tried from every abstract state; all symbol sequences of length 2 (thorough: 3, see RULE) after '
               '{no prefix, EHLO, EHLO MAIL RCPT}; seeded random walks to 12 units. Exhaustive only for the abstract graph (monitor '
               '"bfs-closure-reached" counts closed configurations; one witness prefix per abstract state) and for the '
               'bounded-depth enumeration when the generator was not cut; everything else is sampling. Held = held on '
@@ -82,7 +84,7 @@ RULE = ('case = (extension set in {default,SIZE,STARTTLS,AUTH,ALL}, handler kind
         'QUIT arg, STARTTLS, STARTTLS arg, AUTH PLAIN initial-response / challenge / LOGIN / cancel / bad base64 / unknown '
         'mechanism / bare, unknown verb, empty line, CLOSE, TLSHANDSHAKE, BANNER_, HAVE_DATA) x handler verdict for '
         'that callback in {accept,450,550,421} (message-received also 221). Generated by (1) BFS closure of the abstract '
-        'state graph, (2) all sequences up to depth 2/3 after {nothing, EHLO, EHLO MAIL RCPT}, (3) seeded random walks up to 12 units. '
+        'state graph, (2) all sequences of length 2 after {nothing, EHLO, EHLO MAIL RCPT} (thorough: also length 3 over a reduced 31-symbol alphabet after the same prefixes and over the full alphabet after EHLO for configurations without STARTTLS), (3) seeded random walks up to 12 units. '
         'One case = one session = one evaluation. non-trivial & distinct = distinct (config, sequence) that reaches an '
         'open transaction (MAIL accepted) or contains a rejected command followed by a command that depends on it '
         '(EHLO/HELO -> MAIL, MAIL -> RCPT/DATA, RCPT -> DATA)')
@@ -282,7 +284,7 @@ class Run(object):
         self.why = 'initial'      # why there is no open transaction
         # verdict bookkeeping
         self.viol = []
-        self._state_before, self._spec_before = 'connect', None
+        self._state_before, self._spec_before, self._stage_cb = 'connect', None, False
         self.states = []          # abstract state after the banner and after every finished unit
         self.hits = collections.Counter()
         self.nt_open = False
@@ -337,7 +339,9 @@ class Run(object):
         u = self.cur
         parts = [clause, tag or (u.base if u is not None else 'BANNER_')]
         if u is not None and tag is None:
-            parts.append('verdict-' + (u.v2 if (u.kind == 'data' and self.stage >= 1) else u.v1))
+            # the scripted verdict is part of the class only if a callback actually ran (and could apply it)
+            parts.append('verdict-' + (u.v2 if (u.kind == 'data' and self.stage >= 1) else u.v1)
+                         if self._stage_cb else 'no-callback')
         if with_state:
             parts.append(self._state_before)
         detail.update({'unit_index': self.pos, 'unit': u.sym if u is not None else None, 'stage': self.stage,
@@ -410,6 +414,7 @@ class Run(object):
         replies, junk = split_replies(raw)
         codes = [r[0] for r in replies]
         names = [c[0] for c in cbs if c[0] in PROTO_CBS]
+        self._stage_cb = bool(names)
         u = self.cur
         self.steps.append({'unit': u.sym if u else ('<banner>' if self.pos == -1 else '<none>'),
                            'line': u.line if u and self.stage == 0 else None, 'stage': self.stage, 'replies': codes,
@@ -1101,6 +1106,17 @@ def gen_cases(tier, seed, shard, nshards):
                             if n % nshards == shard:
                                 yield _case('depth', ext, kind, 'ok', prefix + [a, b, c])
                             n += 1
+        # full alphabet at depth 3 after EHLO for the configurations that run on the scripted socket
+        for ext, kind in CONFIGS:
+            if 'STARTTLS' in EXT_FEATURES[ext]:
+                continue
+            alpha = alphabet_for(ext)
+            for a in alpha:
+                for b in alpha:
+                    for c in alpha:
+                        if n % nshards == shard:
+                            yield _case('depth', ext, kind, 'ok', ['EHLO', a, b, c])
+                        n += 1
     # seeded random walks
     rnd = random.Random('c07-%d-%d' % (seed, shard))
     for i in range(NWALKS[tier] // nshards):
@@ -1139,7 +1155,7 @@ def run_case(case, R):
         R.hit(h, n)
     for o, n in run.observations.items():
         R.count('observed/' + o, n)
-    R.count('exit/' + run.exit.split(':')[0])
+    R.count('exit/' + run.exit)
     cfg = (ext, kind)
     for i, st in enumerate(run.states):
         R.observe('abstract-state', (cfg, st))
@@ -1169,13 +1185,19 @@ def run_case(case, R):
     if len(syms) >= 4 and (run.nt_open and run.nt_dep):
         R.sample({'ext': ext, 'kind': kind, 'banner': banner, 'steps': run.steps, 'exit': run.exit})
     if run.viol:
-        raw, what, detail = run.viol[0]
-        detail = dict(detail)
-        detail.update({'ext': ext, 'kind': kind, 'banner': banner, 'units': syms, 'steps': run.steps,
-                       'exit': run.exit, 'raw_mechanism': raw,
-                       'later_violations_in_this_session_suppressed': [v[0] for v in run.viol[1:4]]})
+        # the first violation of the session; if that one is the read-only invariant (vi), also the first
+        # behavioural one (i)-(v) that follows, so that the evidence shows whether the divergence is visible
+        # at the public boundary.  Everything later may be a cascade and is only listed by name.
+        report = [run.viol[0]]
+        if run.viol[0][0].startswith('flags-disagree'):
+            report += [v for v in run.viol[1:] if not v[0].startswith('flags-disagree')][:1]
         R.count('violating-sessions')
-        R.violation(classify(raw), what, detail)
+        for raw, what, detail in report:
+            detail = dict(detail)
+            detail.update({'ext': ext, 'kind': kind, 'banner': banner, 'units': syms, 'steps': run.steps,
+                           'exit': run.exit, 'raw_mechanism': raw,
+                           'all_violations_of_this_session': [v[0] for v in run.viol[:6]]})
+            R.violation(classify(raw), what, detail)
 
 
 def shard_cleanup():
